@@ -290,7 +290,7 @@ class MergedSequences(Generic[_ValueT]):
       raise NotImplementedError(f'step is not supported, got {slice_}')
     start = self._index(slice_.start or 0)
     stop = self._index(len(self) if slice_.stop is None else slice_.stop)
-    if start.seq_idx == len(self._sequences):
+    if start.seq_idx == len(self._sequences) or start.seq_idx > stop.seq_idx:
       return iter(())
     if start.seq_idx == stop.seq_idx:
       return self._index_slice(start.seq_idx, start.idx, stop.idx)
